@@ -133,7 +133,16 @@ func stressRebal(cfg M, tr *Trace, seed int64) {
 	}
 	var okc, errc atomic.Int64
 	G := numOr(cfg, "goroutines", 8)
-	parallel(G+1, func(i int, r *rand.Rand) {
+	parallel(G+2, func(i int, r *rand.Rand) {
+		if i == G+1 { // inspection from its own goroutine
+			for k := 0; k < 400; k++ {
+				for _, u := range rb.Servers() {
+					_ = u.String()
+				}
+				runtime.Gosched()
+			}
+			return
+		}
 		if i == G {
 			for k := 0; k < 60; k++ {
 				key := []string{"b", "c", "d"}[r.Intn(3)]
